@@ -60,6 +60,13 @@ def run_case(ctx, case, model=None):
         link = Link(name="x", products=P)
         try:
             with fstree.in_dir(root + "/t1"):
+                if o.get("pre_fail"):
+                    pf = o["pre_fail"]
+                    try:
+                        rl.record_artifacts_as_dict(pf["artifacts"], exclude_patterns=pf["exclude_patterns"],
+                                                    lstrip_paths=pf["lstrip_paths"])
+                    except Exception:  # noqa
+                        pass
                 res = rl.in_toto_match_products(link, paths=o["paths"], exclude_patterns=o["exclude_patterns"],
                                                 lstrip_paths=o["lstrip_paths"])
             out = {"ok": [sorted(res[0]), sorted(res[1]), sorted(res[2])]}
@@ -74,9 +81,20 @@ def pinned_cases():
     d = lambda **kw: ["d", kw]
     t1 = {"out": d(dist=d(**{"readme.txt": f("r")}), x=f("1")), "dist": d(y=f("2")), "top": f("t")}
     t2 = {"build": d(**{"out.o": f("o")}), "src": d(build=d(**{"rules.py": f("r"), "deep": d(**{"more.py": f("m")})}), **{"main.c": f("c")})}
+    t3 = {"keep": d(**{"trace.log": f("k"), "deep": d(**{"trace.log": f("kd"), "x.o": f("o")}), "note.txt": f("n")}),
+          "top.txt": f("t"), "run.log": f("l"), "obj": d(**{"a.o": f("a"), "b.c": f("b")})}
     import copy
     out = []
-    for tree, opts in ((t1, {"paths": None, "exclude_patterns": None, "lstrip_paths": ["out/", "dist/"]}),
+    for tree, opts in ((t3, {"paths": ["file:./top.txt", "file:./keep/note.txt", "obj"], "exclude_patterns": None, "lstrip_paths": None}),
+                       (t3, {"paths": ["file:./keep/note.txt"], "exclude_patterns": None, "lstrip_paths": ["keep/"]}),
+                       (t3, {"paths": None, "exclude_patterns": ["*.log", "!keep/"], "lstrip_paths": None}),
+                       (t3, {"paths": ["keep", "obj"], "exclude_patterns": ["*.log", "!keep/deep/", "*.o"], "lstrip_paths": None}),
+                       # history: a recording with OTHER options fails first; this comparison must not inherit anything from it
+                       (t3, {"paths": ["dir:keep", "top.txt"], "exclude_patterns": ["*.log"], "lstrip_paths": None,
+                             "pre_fail": {"artifacts": ["dir:no-such-dir"], "exclude_patterns": ["*.txt"], "lstrip_paths": None}}),
+                       (t3, {"paths": ["dir:obj"], "exclude_patterns": ["*.o"], "lstrip_paths": None,
+                             "pre_fail": {"artifacts": ["dir:no-such-dir"], "exclude_patterns": None, "lstrip_paths": ["ob"]}}),
+                       (t1, {"paths": None, "exclude_patterns": None, "lstrip_paths": ["out/", "dist/"]}),
                        (t1, {"paths": ["out", "dist"], "exclude_patterns": None, "lstrip_paths": ["dist/", "out/"]}),
                        (t2, {"paths": None, "exclude_patterns": ["/build"], "lstrip_paths": None}),
                        (t2, {"paths": ["src", "build"], "exclude_patterns": ["/build"], "lstrip_paths": None}),
@@ -86,7 +104,8 @@ def pinned_cases():
             log = []
             if edit:
                 # change something deep inside: it must show up in exactly the right report
-                node = after["out"][1]["dist"][1] if "out" in after else after["src"][1]["build"][1]
+                node = (after["out"][1]["dist"][1] if "out" in after else
+                        after["src"][1]["build"][1] if "src" in after else after["keep"][1])
                 if edit == "edit":
                     k = sorted(k for k, v in node.items() if v[0] == "f")[0]
                     node[k] = ["f", node[k][1] + "!"]
